@@ -123,9 +123,37 @@ def run_schedule(spec):
         def child_done():
             return proc.poll() is not None
 
+        def launched_labels():
+            labs = set()
+            for l in open(Path(base) / "events.ndjson"):
+                if '"a": "launch"' in l:
+                    try:
+                        e = json.loads(l)
+                    except ValueError:
+                        continue
+                    if e.get("job") not in (None, "main") and e.get("si") is not None:
+                        labs.add(f"{e['job']}{e['si']}")
+            return labs
+
+        def settle(limit=2.5):
+            """let every job the loop has launched so far start its (held) body, so that the jobs in flight at this
+            point of the schedule are all visible in the body log (the worst case the specification quantifies over)"""
+            t_stop = min(time.time() + limit, t_end)
+            stable_since, last = time.time(), None
+            while time.time() < t_stop and not child_done():
+                labs = launched_labels()
+                started = {l.split()[1] for l in body_lines() if l.startswith("S ")}
+                if labs != last:
+                    last, stable_since = labs, time.time()
+                if labs <= started and time.time() - stable_since > 0.08:
+                    return
+                time.sleep(0.004)
+
         finished = False
         for j in spec["order"]:
             L = lab(j)
+            if worker == "cf":
+                settle()
             # wait for the body to start (the behaviour says it does)
             while not any(l.split()[:2] == ["S", L] for l in body_lines()):
                 if finished or child_done():
